@@ -222,7 +222,14 @@ func run(cfg RunConfig, pkgPaths []string) (*RunOutput, error) {
 			if j.o.Vacuity {
 				secs = 2
 			}
-			r, all := solve(f, secs, cfg.AllSolvers && !j.o.Vacuity)
+			var r Result
+			var all []Result
+			if j.o.Vacuity {
+				r = runSolver(solvers[0], f, secs) // a planted assert-false: one short attempt, no race
+				all = []Result{r}
+			} else {
+				r, all = solve(f, secs, cfg.AllSolvers)
+			}
 			res[i] = &OblResult{Obl: j.o, Gen: j.g, Res: r, All: all}
 		}()
 	}
